@@ -23,6 +23,8 @@ import asyncio
 import hashlib
 import os
 import random
+import shutil
+import tempfile
 import struct
 
 from .. import import_asyncssh, apps, scen, vloop, hostile, refpeer, \
@@ -99,6 +101,13 @@ def gen_cases(tier, seed):
             cases.append({'kind': 'peer', 'template': t, 'role': role,
                           'app': 'writer', 'chunk': 'all', 'force': force,
                           'cseed': 9})
+
+    # X11 setup prefixes with every small / extreme length pair
+    for force in ([0, 0], [0, 16], [18, 0], [1, 1], [0xffff, 0xffff],
+                  [0, 0xffff], [0xffff, 0]):
+        cases.append({'kind': 'peer', 'template': 'srv_x11_setup',
+                      'role': 'client', 'app': 'writer', 'chunk': 'all',
+                      'force': force, 'cseed': 10})
 
     # same, reached through the dropbear off-by-one workaround: a peer that
     # calls itself dropbear, negotiates compression and announces size 1
@@ -586,6 +595,34 @@ def _t_srv_kbdint(rng, ctx):
     return [('kbdint', n)], {'num_prompts': n}
 
 
+def _t_srv_x11_setup(rng, ctx):
+    """The client asked for X11 forwarding; the server opens an x11 channel
+       and sends a connection-setup prefix whose fields it chooses"""
+
+    def pad(v):
+        return v + bytes(-len(v) % 4)
+
+    order = rng.choice([b'l', b'l', b'B', b'x'])
+    e = 'little' if order != b'B' else 'big'
+    proto = rng.choice([b'', b'MIT-MAGIC-COOKIE-1', b'M', b'X' * 40])
+    data = rng.choice([b'', bytes(16), b'\x01', os.urandom(16), bytes(64)])
+    plen, dlen = len(proto), len(data)
+    if rng.random() < 0.3:
+        plen = rng.choice([0, 1, 0xffff])
+    if rng.random() < 0.3:
+        dlen = rng.choice([0, 1, 0xffff])
+    if ctx.get('force'):
+        proto, data = b'', b''
+        plen, dlen = ctx['force']
+    prefix = order + b'\0' + (11).to_bytes(2, e) + (0).to_bytes(2, e) + \
+        plen.to_bytes(2, e) + dlen.to_bytes(2, e) + b'\0\0' + pad(proto) + \
+        pad(data)
+    if rng.random() < 0.15 and not ctx.get('force'):
+        prefix = prefix[:rng.randrange(1, len(prefix))]
+    return [('x11_setup', prefix)], {'x11_prefix': prefix[:16].hex(),
+                                     'proto_len': plen, 'data_len': dlen}
+
+
 def _t_srv_banner(rng, ctx):
     return [('banner', rng.choice([0, 1, 100000]))], {}
 
@@ -613,6 +650,7 @@ PEER_TEMPLATES = {
     'srv_kbdint_prompts': ('client', _t_srv_kbdint),
     'srv_silent_open': ('client', _t_srv_silent),
     'srv_banner': ('client', _t_srv_banner),
+    'srv_x11_setup': ('client', _t_srv_x11_setup),
     'srv_transport': ('client', _t_transport),
     'srv_global': ('client', _t_global),
     'srv_open': ('client', _t_open(b'forwarded-tcpip')),
@@ -790,6 +828,43 @@ def _run_peer(case, mon, viol, info):
                             first[0] == 'never_confirm':
                         mon['peer_messages'] += 1
                         return          # hostile silence
+                    if isinstance(first, tuple) and first[0] == 'x11_setup':
+                        peer.send(bytes([R.MSG_CHANNEL_OPEN_CONFIRMATION]) +
+                                  u32(cid) + u32(3) + u32(2097152) +
+                                  u32(32768))
+                        while True:
+                            q = await peer.recv()
+                            if q[0] != R.MSG_CHANNEL_REQUEST:
+                                continue
+                            r = R.Reader(q, 1)
+                            r.u32()
+                            name = r.str()
+                            if r.bool():
+                                peer.send(bytes([R.MSG_CHANNEL_SUCCESS]) +
+                                          u32(cid))
+                            if name == b'exec':
+                                break
+                        peer.send(bytes([R.MSG_CHANNEL_OPEN]) + _s(b'x11') +
+                                  u32(9) + u32(2097152) + u32(32768) +
+                                  _s(b'10.0.0.1') + u32(1234))
+                        q = await peer.recv((
+                            R.MSG_CHANNEL_OPEN_CONFIRMATION,
+                            R.MSG_CHANNEL_OPEN_FAILURE),
+                            skip=(R.MSG_CHANNEL_DATA, R.MSG_CHANNEL_EOF,
+                                  R.MSG_CHANNEL_WINDOW_ADJUST,
+                                  R.MSG_CHANNEL_REQUEST,
+                                  R.MSG_GLOBAL_REQUEST))
+                        if q[0] == R.MSG_CHANNEL_OPEN_CONFIRMATION:
+                            r = R.Reader(q, 1)
+                            r.u32()
+                            xid = r.u32()
+                            peer.send(bytes([R.MSG_CHANNEL_DATA]) +
+                                      u32(xid) + _s(first[1]))
+                            mon['x11_setups_sent'] = \
+                                mon.get('x11_setups_sent', 0) + 1
+                            mon['peer_messages'] += 1
+                            mon['extreme_fields'] += 2
+                        return
                     if isinstance(first, tuple) and first[0] == 'confirm':
                         peer.send(bytes([R.MSG_CHANNEL_OPEN_CONFIRMATION]) +
                                   u32(cid) + u32(3) + u32(first[1]) +
@@ -812,6 +887,22 @@ def _run_peer(case, mon, viol, info):
                             mon['peer_messages'] += 1
                             mon['extreme_fields'] += 1
 
+                xstate = {}
+                if isinstance(msgs[0], tuple) and msgs[0][0] == 'x11_setup':
+                    # the local X display the client's DISPLAY points at
+                    xdir = tempfile.mkdtemp(
+                        prefix='vf-c10x-', dir=os.environ.get('VF_TMP'))
+                    info['_xdir'] = xdir
+
+                    async def fake_x(reader, writer):
+                        try:
+                            await reader.read()
+                        finally:
+                            writer.close()
+                    xstate['path'] = os.path.join(xdir, 'X:0')
+                    xstate['auth'] = os.path.join(xdir, 'Xauthority')
+                    xstate['srv'] = await asyncio.start_unix_server(
+                        fake_x, path=xstate['path'])
                 st = asyncio.ensure_future(serve())
                 env.san.harness_tasks.add(st)
                 env.hostile_dir = 's2c'
@@ -847,8 +938,15 @@ def _run_peer(case, mon, viol, info):
                                 await asyncio.wait_for(conn.wait_closed(),
                                                        60)
                             return
+                        xkw = {}
+                        if isinstance(msgs[0], tuple) and \
+                                msgs[0][0] == 'x11_setup':
+                            xkw = dict(x11_forwarding=True,
+                                       x11_display=xstate['path'],
+                                       x11_auth_path=xstate['auth'])
                         res = await conn.run(
-                            'x', input='h\u00e9llo\u20ac\U0001F600' * 40)
+                            'x', input='h\u00e9llo\u20ac\U0001F600' * 40,
+                            **xkw)
                         result['run'] = res
 
                     ct = asyncio.ensure_future(client())
@@ -886,6 +984,8 @@ def _run_peer(case, mon, viol, info):
     finally:
         info['max_calls'] = meter.max_calls_per_input
         info['meter'] = meter.violations[:1]
+        if info.get('_xdir'):
+            shutil.rmtree(info.pop('_xdir'), ignore_errors=True)
 
 
 async def _peer_judge(env, case, mon, viol, meter, by, peer, owner, sconn):
